@@ -80,6 +80,14 @@ def run_set_onto(ctx, case):
     for t in itertools.product(*[range(x) for x in base]):
         imgs.add(spf2.from_int_tuple(t).tobytes())
     ctx.require(len(imgs) == ref.sp_order(n), 'images distinct and as many as the group order', f'{len(imgs)} vs {ref.sp_order(n)}')
+    # a caller that works on the returned matrices in place (here: multiplies each by a fixed group element) and enumerates again
+    g = spf2.from_int_tuple(tuple(x - 1 for x in base)).astype(np.int64)
+    for t in itertools.product(*[range(x) for x in base]):
+        m = spf2.from_int_tuple(t)
+        if m.flags.writeable:
+            m[:] = (m.astype(np.int64) @ g) % 2
+    imgs2 = set(spf2.from_int_tuple(t).tobytes() for t in itertools.product(*[range(x) for x in base]))
+    ctx.require(imgs2 == imgs, 'a second enumeration gives the same images after the caller edited the first results in place', f'{len(imgs2)} vs {len(imgs)}')
     # brute force: all binary matrices satisfying the defining equation
     L = ref.symplectic_form(n).astype(np.int64)
     brute = set()
@@ -100,6 +108,7 @@ def run_transvection(ctx, case):
     n, i0 = case['n'], case['v0']
     v0 = np.array([(i0 >> j) & 1 for j in range(2 * n)], dtype=np.uint8)
     ctx.note(klass=f'n={n}', desc=['transv', n, i0], nontrivial=True)
+    allv = np.array([[(i >> j) & 1 for j in range(2 * n)] for i in range(4 ** n)], dtype=np.uint8)  # every vector, the zero vector included
     for i1 in range(1, 4 ** n):
         v1 = np.array([(i1 >> j) & 1 for j in range(2 * n)], dtype=np.uint8)
         ip = int((np.dot(v0[:n].astype(int), v1[n:]) + np.dot(v0[n:].astype(int), v1[:n])) % 2)
@@ -113,6 +122,17 @@ def run_transvection(ctx, case):
             s = (np.dot(x[:n], hh[n:]) + np.dot(x[n:], hh[:n])) % 2
             x = (x + s * hh) % 2
         ctx.require(np.array_equal(x, v1), 'returned vectors are transvections mapping v0 to v1 (reference formula)')
+        # batched argument (documented: ndim>=1): every row is transformed like a single vector
+        X = allv.astype(np.int64)
+        for hh in np.asarray(h).astype(np.int64):
+            sX = (X[:, :n] @ hh[n:] + X[:, n:] @ hh[:n]) % 2
+            X = (X + sX[:, None] * hh) % 2
+        for shp in ((4 ** n, 2 * n), (2 ** n, 2 ** n, 2 * n), (1, 4 ** n, 2 * n), (2, 2 ** n, 2 ** (n - 1), 2 * n)):
+            arg = allv.reshape(shp).copy()
+            outb = spf2.transvection(arg, *h)
+            ctx.require(np.shape(outb) == shp and np.array_equal(np.asarray(outb).reshape(-1, 2 * n) % 2, X),
+                        'transvection on a batch of vectors = row by row', f'shape={shp} h={np.asarray(h).tolist()}')
+            ctx.require(np.array_equal(arg, allv.reshape(shp)), 'transvection does not modify its argument')
         ctx.tick()
         ctx.label('orthogonal' if (ip == 0 and i0 != i1) else ('equal' if i0 == i1 else 'ip1'))
 
@@ -143,6 +163,8 @@ def run_rand_tuple(ctx, case):
     ctx.require(spf2.get_number(n, 'order') == ref.sp_order(n), 'get_number order', f'n={n}')
     ctx.require(tuple(spf2.get_number(n, 'coset')) == tuple((4 ** i - 1) * 2 ** (2 * i - 1) for i in range(1, n + 1)), 'get_number coset')
     _check_tuple(ctx, t)
+    ctx.fresh(lambda: spf2.from_int_tuple(tuple(t)), 'from_int_tuple: a second call is not affected by editing the matrix returned by the first')
+    ctx.fresh(lambda: spf2.inverse(spf2.from_int_tuple(tuple(t))), 'inverse: a second call is not affected by editing the matrix returned by the first')
 
 
 @st.composite
@@ -175,6 +197,30 @@ def run_rand_spf2(ctx, case):
         ctx.require(tuple(int(x) for x in spf2.to_int_tuple(M)) == tuple(int(x) for x in t), 'rand_SpF2 round trip')
 
 
+def run_rand_cover(ctx, case):
+    import numqi
+    n, nseed = case['n'], case['nseed']
+    ctx.note(klass=f'cover n={n}', desc=['cover', n], nontrivial=True)
+    base = [y for i in range(1, n + 1) for y in (4 ** i - 1, 2 ** (2 * i - 1))]
+    seen = [set() for _ in base]
+    mats = set()
+    for seed in range(nseed):
+        t, M = numqi.random.rand_SpF2(n, return_kind='int_tuple-matrix', seed=seed)
+        for s_, x in zip(seen, t):
+            s_.add(int(x))
+        mats.add(np.asarray(M).tobytes())
+        ctx.tick()
+    # seeds are enumerated, so this is a deterministic statement about the sampler; a uniform sampler misses a digit value with probability < 1e-20 here
+    for s_, b in zip(seen, base):
+        ctx.require(s_ == set(range(b)), 'rand_SpF2 reaches every value 0..base-1 of every digit over the enumerated seeds', f'n={n} base={b} missing={sorted(set(range(b)) - s_)}')
+    if n == 1:
+        ctx.require(len(mats) == 6, 'rand_SpF2(1) produces all 6 elements of Sp(2,F2) over the enumerated seeds', f'{len(mats)}')
+
+
+def cases_rand_cover(tier):
+    return [dict(n=1, nseed=300), dict(n=2, nseed=1500), dict(n=3, nseed=6000 if tier == 'quick' else 20000)]
+
+
 SUBCHECKS = [
     SubCheck('exh_tuples', run_exh_tuples, cases=cases_exh_tuples, shards=(4, 16),
              doc='all tuples n=1,2 (+ a fixed slice of n=3 in quick; all 1,451,520 of n=3 in thorough)'),
@@ -184,4 +230,6 @@ SUBCHECKS = [
              doc='all ordered pairs of non-zero vectors n<=3 (n=4 thorough)'),
     SubCheck('rand_tuple', run_rand_tuple, strategy=_strat_tuple, examples=(400, 3000)),
     SubCheck('rand_spf2', run_rand_spf2, strategy=_strat_randsp, examples=(300, 2000)),
+    SubCheck('rand_cover', run_rand_cover, cases=cases_rand_cover, shards=(3, 3),
+             doc='rand_SpF2 over enumerated seeds: every digit value of the mixed-radix tuple is produced (n=1: all 6 group elements)'),
 ]
